@@ -248,7 +248,8 @@ def classify(e: BaseException, input_mode: str) -> dict:
 	tranp_frame = lambda tb: next((f'{fr.filename.replace(os.sep, "/").split("/rogw/tranp/")[1]}:{fr.name}' for fr in reversed(traceback.extract_tb(tb)) if '/rogw/tranp/' in fr.filename.replace(os.sep, '/')), None)
 	where = tranp_frame(root.__traceback__) or tranp_frame(e.__traceback__) or '?'
 	is_app = lambda x: isinstance(x, Errors.Error)
-	return {'mode': mode, 'stage': stage, 'raised': 'App' if is_app(root) else 'Foreign', 'escaped': 'App' if is_app(e) else 'Foreign',
+	reported = 'Foreign' if not is_app(e) else ('Syntax' if isinstance(e, Errors.Syntax) else 'Fatal' if stage == 'parse' else 'App')
+	return {'mode': mode, 'stage': stage, 'raised': 'App' if is_app(root) else 'Foreign', 'escaped': 'App' if is_app(e) else 'Foreign', 'reported': reported,
 		'root_class': f'{type(root).__module__}.{type(root).__qualname__}', 'escaped_class': f'{type(e).__module__}.{type(e).__qualname__}', 'where': where}
 
 
@@ -354,7 +355,7 @@ def run(ctx: Ctx) -> int:
 		violations.append(Violation(f'render:{r.get("escaped_class")}', 'RenderTotal', f'ErrorRender failed on {r.get("escaped_class")}: {r.get("render_error")}', {'source': r['source'], 'mode': r['input_mode']}))
 
 	# code -> spec
-	trace = [{'mode': r['mode'], 'stage': r['stage'], 'raised': r['raised'], 'escaped': r['escaped'], 'render': r['render']} for r in records if r['stage'] != 'timeout']
+	trace = [{'mode': r['mode'], 'stage': r['stage'], 'raised': r['raised'], 'escaped': r['escaped'], 'render': r['render'], 'reported': r.get('reported', 'none')} for r in records if r['stage'] != 'timeout']
 	outdir = scratch_dir('verif-c07-trace-')
 	path = os.path.join(outdir, 'records.json')
 	with open(path, 'w') as f:
@@ -384,6 +385,15 @@ def run(ctx: Ctx) -> int:
 	for key, rs in sorted(leaks.items()):
 		smallest = min(rs, key=lambda r: len(r['source']))
 		violations.append(Violation(key, 'EscapesAreApp', f'{smallest["escaped_class"]} escapes the pipeline ({len(rs)} inputs), e.g. {smallest["source"][:80]!r}', {'source': smallest['source'], 'mode': smallest['input_mode'], 'label': smallest['label']}))
+
+	# unparsable text is reported as Errors.Syntax, on disk and in memory
+	unparsed: dict[str, list] = {}
+	for r in records:
+		if r['stage'] == 'parse' and r['escaped'] == 'App' and r.get('reported') != 'Syntax':
+			unparsed.setdefault(f'UnparsableIsSyntax:{r["mode"]}:{r["root_class"]}', []).append(r)
+	for key, rs in sorted(unparsed.items()):
+		smallest = min(rs, key=lambda r: len(r['source']))
+		violations.append(Violation(key, 'UnparsableIsSyntax', f'a failure of the parser ({smallest["root_class"]}) is reported as {smallest["escaped_class"]} instead of Errors.Syntax ({len(rs)} inputs), e.g. {smallest["source"][:80]!r}', {'source': smallest['source'], 'mode': smallest['input_mode'], 'label': smallest['label']}))
 
 	outcomes: dict[str, int] = {}
 	for r in records:
